@@ -147,6 +147,30 @@ def run(F, R, ctx):
                "%s creates a ThreadHandle but never pushes a ThreadContext into Synchronizer.threads: stop_threads / "
                "enumerate_stacks do not know the thread, so a collection runs while it mutates its stack and never marks what "
                "only it references" % fn.short(), fn.loc(), sample=True)
+    # ---- e: every interpreter thread takes part in the protocol
+    R.rule("C15.e", "SteelThread.safepoints_enabled (which gates publishing the context at safepoints) is initialised to true "
+                    "in SteelThread::new, or else every function that creates a further interpreter thread writes it before "
+                    "the thread exists")
+    newf = F.one(r"^steel::steel_vm::vm::\{impl SteelThread\}::new$")
+    st = F.adt("SteelThread")
+    names = [f_["name"] for f_ in st["variants"][0]["fields"]]
+    if "safepoints_enabled" not in names:
+        raise CheckError("anchor lost: SteelThread.safepoints_enabled")
+    idx = names.index("safepoints_enabled")
+    init = [e[4][idx] for _, _, e in newf.events("agg") if e[1] == "SteelThread" and len(e[4]) == len(names)]
+    if not init:
+        raise CheckError("anchor lost: SteelThread::new does not construct SteelThread with a literal")
+    if init[0] == "const:1":
+        R.inst("C15.e", "SteelThread::new enables safepoints", True, sample={"initial": init[0]})
+    else:
+        for fn in creators:
+            if fn.name == newf.name:
+                continue
+            wr = any(e[1] == "SteelThread" and e[2] == "safepoints_enabled" and e[3][0] == "w" for _, e in lib.family_events(F, fn, "fld"))
+            R.inst("C15.e", "%s enables safepoints before the new thread exists" % fn.short(), wr,
+                   "SteelThread::new initialises safepoints_enabled to %s and %s creates another interpreter thread without "
+                   "setting it: neither thread publishes its context at safepoints, so a stop request waits for it forever or "
+                   "proceeds while it runs" % (init[0], fn.short()), fn.loc(), sample=True)
     # ---- s
     for nm, ctl, extra in (("stop_threads", "pause_for_safepoint", None), ("resume_threads", "resume", r"Thread\}::unpark$")):
         fn = F.one(r"^steel::steel_vm::vm::\{impl Synchronizer\}::%s$" % nm)
